@@ -231,7 +231,7 @@ Fixpoint write_loop (cx : ctx) (fuel : nat) (s : Z) (hops : list Z) (bufs : list
       | buf :: rest =>
           let t := get_tcp w s in
           let k := Z.to_nat (Z.min (Z.of_nat (length buf)) (t_mss t)) in
-          let p := mk_packet PPayload 0 (firstn k buf) (t_bound t) 40 hops None (t_next_out t) (Some (DTcp s)) in
+          let p := mk_packet PPayload 0 (firstn k buf) (t_bound t) 40 hops None (t_next_out t) (Some (DTcp s (fwd_of t))) in
           let w := set_tcp w s (t <| t_next_out := t_next_out t + 1 |>) in
           let (w, c1) := tcp_send_packet cx s p w in
           let ret := ret + Z.of_nat k in
@@ -293,7 +293,7 @@ Definition tcp_packet_dropped (v : variant) (s : Z) (p : packet) (w : net) : net
             else (w, [KLog (TAG_FUEL, [5])])      (* null channel dereferenced *)
   | Some ci =>
       let c := get_chan w ci in
-      let p' := set_hops (set_drop p (if d9_drop_cb_kept v then Some (DTcp s) else None))
+      let p' := set_hops (set_drop p (if d9_drop_cb_kept v then Some (DTcp s (fwd_of t)) else None))
                          (chan_hops c (remote_idx c (t_bound t))) in
       let t := if d8_drop_unaccounts v then
                  match outst_find (t_outst t) (p_seq p) with
@@ -621,7 +621,14 @@ Definition run_drop (v : variant) (p : packet) (w : net) : net * list kc :=
   match p_drop p with
   | None => (w, [])
   | Some (DUser id) => (w, [KLog (TAG_DROP, [id; ptype_code (p_type p); pkt_size p; p_seq p])])
-  | Some (DTcp s) => tcp_packet_dropped v s p w
+  | Some (DTcp s f) =>
+      if d11b_drop_via_fwd v then
+        match mget SNone (w_sinks w) f with
+        | SFwd (Some (OTcp s')) => tcp_packet_dropped v s' p w
+        | _ => (w, [])                  (* closed or destroyed since: the notification vanishes *)
+        end
+      else if existsb (Z.eqb f) (w_deadfwd w) then (w, [KLog (TAG_FUEL, [6])])   (* dangling `this` *)
+      else tcp_packet_dropped v s p w
   end.
 
 (* nat::incoming_packet *)
@@ -818,246 +825,21 @@ Definition rslv_cancel (r : Z) (w : net) : net * list kc :=
   (set_rslv w r {| r_node := r_node x; r_queue := [] |},
    map (fun l => KPost (TUser (l_h l) (lookup_args l EC_ABORTED))) (r_queue x)).
 
-(* ================= the script interpreter ================= *)
 
-(* internal completion handlers of the composed operations *)
-Definition hid_wall (s : Z) : Z := - (1000 + 2 * s).
-Definition hid_rall (s : Z) : Z := - (1001 + 2 * s).
+(* ================= composed operations (asio::async_write / the harness's loops) ================= *)
 
-Definition ret_line (code obj : Z) (vals : list Z) : kc := KLog (TAG_RET, code :: obj :: vals).
+(* internal completion handlers of the composed operations on socket s *)
+(* internal completion handlers: -(1000 + 4x + kind); kind 0 composed write on
+   socket x, 1 composed read on socket x, 2 application callback x = 64*app + k,
+   3 script handler x that is also given the bytes read *)
+Definition hid_wall (s : Z) : Z := - (1000 + 4 * s).
+Definition hid_rall (s : Z) : Z := - (1001 + 4 * s).
+Definition hid_raw (h s bufsize : Z) (loop : bool) : Z := - (1003 + 4 * ((((h * 4096) + s) * 65536 + bufsize) * 2 + (if loop then 1 else 0))).
+Definition hid_app (app k : Z) : Z := - (1002 + 4 * (64 * app + k)).
 
-Definition do_uop (v : variant) (now : Z) (o : uop) (w : net) : net * list kc :=
-  let cx := mkcx v now in
-  match o with
-  | UPost h => (w, [KPost (TUser h [])])
-  | UExpiresAt i e => (w, [KExpiresAt (tid_user i) e])
-  | UExpiresAfter i d => (w, [KExpiresAfter (tid_user i) d])
-  | UAsyncWait i h => (w, [KAsyncWait (tid_user i) (fun e => TUser h [ec_code e])])
-  | UCancel i => (w, [KCancel (tid_user i)])
-  | UDestroy i => (w, [KDestroy (tid_user i)])
-  | UStop => (w, [KStop])
-  | UInject p => cfwd cx p w
-  (* ---- udp ---- *)
-  | UUdpNew s node => (set_udp w s (udp_fresh node now), [])
-  | UUdpOpen s v4 => udp_open cx s v4 w
-  | UUdpBind s e => let (err, w) := udp_bind s e w in (w, [ret_line 1 s [err]])
-  | UUdpClose s => udp_close cx s w
-  | UUdpCancel s => udp_abort_recv s w
-  | UUdpDestroy s => let (w, c) := udp_close cx s w in (set_udp w s (udp_fresh (u_node (get_udp w s)) now), c)
-  | UUdpSendTo s bufs dst =>
-      let '(err, n, w, c) := udp_send_to cx s bufs dst w in (w, c ++ [ret_line 2 s [err; n]])
-  | UUdpRecvFrom s bufs =>
-      let (w, c0) := udp_abort_recv s w in
-      let '(err, data, from, w) := udp_receive_from cx s bufs w in
-      (w, c0 ++ [ret_line 3 s (recv_args err data (err =? EC_OK) from)])
-  | UUdpAsyncRecv s bufs want h =>
-      let (w, c0) := udp_abort_recv s w in
-      let (w, c1) := udp_async_recv_impl cx s bufs want h w in (w, c0 ++ c1)
-  | UUdpWaitRead s h =>
-      let (w, c0) := udp_abort_recv s w in
-      let (w, c1) := udp_wait_recv_impl s false h w in (w, c0 ++ c1)
-  | UUdpSetDF s b => (set_udp w s (get_udp w s <| u_df := b |>), [])
-  | UUdpLocalEp s =>
-      let u := get_udp w s in
-      (w, [ret_line 4 s (if u_open u then EC_OK :: ep_fields (u_bound u) else [EC_BAD_DESCRIPTOR; 0; 0; 0])])
-  (* ---- tcp ---- *)
-  | UTcpNew s node => (set_tcp w s (tcp_fresh node false), [])
-  | UAccNew s node => (set_tcp w s (tcp_fresh node true), [])
-  | UTcpOpen s v4 => tcp_open cx s v4 w
-  | UTcpBind s e => let (err, w) := tcp_bind s e w in (w, [ret_line 5 s [err]])
-  | UTcpClose s => if t_is_acc (get_tcp w s) then acc_close cx s w else tcp_close cx s w
-  | UTcpCancel s => if t_is_acc (get_tcp w s) then acc_cancel s w else tcp_cancel s w
-  | UTcpDestroy s =>
-      let t := get_tcp w s in
-      if t_is_acc t then
-        let (w, c) := acc_close cx s w in (set_tcp w s (tcp_fresh (t_node t) true), c)
-      else
-        (* ~socket: drop the channel without telling the peer, unbind, detach, cancel *)
-        let w := set_tcp w s (t <| t_chan := None |>) in
-        let w := if ep_eqb (t_bound t) ep_none then w else unbind_tcp w s (t_bound t) in
-        let w := reset_fwd w (t_fwd t) in
-        let (w, c) := tcp_cancel s w in
-        (set_tcp w s (tcp_fresh (t_node t) false), c ++ [KDestroy (tid_connect s)])
-  | UTcpConnect s e h => tcp_async_connect cx s e h w
-  | UTcpWrite s bufs h =>
-      let (w, c0) := tcp_abort_send s w in
-      let (w, c1) := tcp_async_write_impl cx s bufs h w in (w, c0 ++ c1)
-  | UTcpRead s bufs h =>
-      let (w, c0) := tcp_abort_recv s w in
-      let (w, c1) := tcp_async_read_impl s bufs h w in (w, c0 ++ c1)
-  | UTcpReadSome s bufs =>
-      let '(err, data, w) := tcp_read_some s bufs w in (w, [ret_line 6 s (read_args err data)])
-  | UTcpWaitRead s h =>
-      let (w, c0) := tcp_abort_recv s w in
-      let (w, c1) := tcp_wait_read_impl s h w in (w, c0 ++ c1)
-  | UTcpAvailable s => let (e, n) := tcp_available (get_tcp w s) in (w, [ret_line 7 s [e; n]])
-  | UTcpLocalEp s =>
-      let t := get_tcp w s in
-      (w, [ret_line 8 s (if t_open t then EC_OK :: ep_fields (t_bound t) else [EC_BAD_DESCRIPTOR; 0; 0; 0])])
-  | UTcpRemoteEp s =>
-      let t := get_tcp w s in
-      (w, [ret_line 9 s
-             (if negb (t_open t) then [EC_BAD_DESCRIPTOR; 0; 0; 0]
-              else match t_chan t with
-                   | None => [EC_NOT_CONNECTED; 0; 0; 0]
-                   | Some ci => let c := get_chan w ci in EC_OK :: ep_fields (chan_vis c (remote_idx c (t_bound t)))
-                   end)])
-  | UAccListen s n =>
-      let t := get_tcp w s in
-      let n := if n =? -1 then 20 else n in
-      if negb (t_open t) then (w, [ret_line 10 s [EC_BAD_DESCRIPTOR]])
-      else if ep_eqb (t_bound t) ep_none then (w, [ret_line 10 s [EC_INVALID_ARGUMENT]])
-      else (set_tcp w s (t <| a_limit := n |>), [ret_line 10 s [EC_OK]])
-  | UAccAccept a peer want h =>
-      let '(w, c0) := if t_open (get_tcp w peer) then tcp_close cx peer w else (w, []) in
-      let (w, c1) := acc_abort_handlers a (negb want) w in
-      let t := get_tcp w a in
-      let w := set_tcp w a (t <| a_h := Some h |> <| a_into := Some peer |> <| a_want_ep := want |>) in
-      let (w, c2) := acc_check_queue cx a w in
-      (w, c0 ++ c1 ++ c2)
-  | UAccAccept2 a dst h =>
-      let w := set_tcp w a (get_tcp w a <| a_want_ep := false |>) in
-      let (w, c1) := acc_abort_handlers a true w in
-      let w := set_tcp w dst (tcp_fresh (t_node (get_tcp w a)) false) in
-      let t := get_tcp w a in
-      let w := set_tcp w a (t <| a_h2 := Some h |> <| a_into := Some dst |>) in
-      let (w, c2) := acc_check_queue cx a w in
-      (w, c1 ++ c2)
-  | UAccClose0 a =>
-      if d13_acceptor_close v then acc_close cx a w else acc_abort_handlers a false w
-  (* ---- resolver ---- *)
-  | UTcpWriteAll s seed total chunk h =>
-      let data := pat seed total in
-      let w := w <| w_wall := mset (w_wall w) s (mkWall data 0 chunk h) |> in
-      let (w, c0) := tcp_abort_send s w in
-      let (w, c1) := tcp_async_write_impl cx s [firstn (Z.to_nat chunk) data] (hid_wall s) w in (w, c0 ++ c1)
-  | UTcpReadAll s bufsize h =>
-      let w := w <| w_rall := mset (w_rall w) s (mkRall bufsize 0 1 0 h) |> in
-      let (w, c0) := tcp_abort_recv s w in
-      let (w, c1) := tcp_async_read_impl s [bufsize] (hid_rall s) w in (w, c0 ++ c1)
-  | URslvNew r node => (set_rslv w r (mkRslv node []), [])
-  | UResolve r n port h => rslv_resolve cx r n port h w
-  | URslvCancel r => rslv_cancel r w
-  | UPcapOn => (w <| w_pcap := Some [] |>, [])
-  | USetNextPort n => (w <| w_next_port := n |>, [])
-  end.
-
-Fixpoint do_uops (v : variant) (now : Z) (os : list uop) (w : net) : net * list kc :=
-  match os with
-  | [] => (w, [])
-  | o :: r =>
-      let (w1, c1) := do_uop v now o w in
-      let (w2, c2) := do_uops v now r w1 in
-      (w2, c1 ++ c2)
-  end.
-
-Definition run_script_handler (v : variant) (now : Z) (h : Z) (args : list Z) (w : net) : net * list kc :=
-  let (w', c) := do_uops v now (mget [] (w_handlers w) h) w in
-  (w', KLog (TAG_H, h :: args) :: c).
-
-(* the composed write: on (ec, n) continue with the rest or report (ec, total written) *)
-Definition wall_step (v : variant) (now : Z) (s : Z) (args : list Z) (w : net) : net * list kc :=
-  let st := mget (mkWall [] 0 0 0) (w_wall w) s in
-  match args with
-  | [e; n] =>
-      if negb (e =? EC_OK) then run_script_handler v now (wa_h st) [e; wa_done st] w
-      else
-        let rest := skipn (Z.to_nat n) (wa_rest st) in
-        let done := wa_done st + n in
-        let w := w <| w_wall := mset (w_wall w) s (mkWall rest done (wa_chunk st) (wa_h st)) |> in
-        match rest with
-        | [] => run_script_handler v now (wa_h st) [EC_OK; done] w
-        | _ =>
-            let (w, c0) := tcp_abort_send s w in
-            let (w, c1) := tcp_async_write_impl (mkcx v now) s [firstn (Z.to_nat (wa_chunk st)) rest] (hid_wall s) w in
-            (w, c0 ++ c1)
-        end
-  | _ => (w, [])
-  end.
-
-(* the composed read: the model carries the bytes of a completed read as
-   (ec, n, n, digest); the running digest needs the bytes themselves, so the
-   completion of a composed read carries them after the four standard fields *)
-Definition rall_step (v : variant) (now : Z) (s : Z) (args : list Z) (w : net) : net * list kc :=
-  let st := mget (mkRall 0 0 1 0 0) (w_rall w) s in
-  match args with
-  | e :: n :: _ :: _ :: data =>
-      if negb (e =? EC_OK) then
-        run_script_handler v now (ra_h st) [e; ra_total st; ra_c st * 65536 + ra_a st] w
-      else
-        let (a, c) := fold_left adler_step data (ra_a st, ra_c st) in
-        let w := w <| w_rall := mset (w_rall w) s (mkRall (ra_buf st) (ra_total st + n) a c (ra_h st)) |> in
-        let (w, c0) := tcp_abort_recv s w in
-        let (w, c1) := tcp_async_read_impl s [ra_buf st] (hid_rall s) w in
-        (w, c0 ++ c1)
-  | _ => (w, [])
-  end.
-
-Definition run_user (v : variant) (now : Z) (h : Z) (args : list Z) (w : net) : net * list kc :=
-  if 0 <=? h then run_script_handler v now h args w
-  else if Z.even h then wall_step v now ((- h - 1000) / 2) args w
-  else rall_step v now ((- h - 1001) / 2) args w.
-
-Definition sim_exec (v : variant) (t : task) (now : Z) (w : net) : net * list kc :=
-  match t with
-  | TUser h args => run_user v now h args w
-  | TQueue s k => queue_task v now s k w
-  | TResolve r e =>
-      let (w, call) := rslv_on_lookup now r e w in
-      match call with
-      | Some (h, args, more) =>
-          if h =? -1 then (w, rslv_rearm r w)      (* the front entry is not due yet: wait for it *)
-          else
-          let (w, c) := run_user v now h args w in
-          (w, c ++ (if more then rslv_rearm r w else []))
-      | None => (w, [])
-      end
-  | TAcceptAbort2 h => run_user v now h [EC_ABORTED; -1] w
-  end.
-
-(* scripts *)
-Inductive mcmd := CmdOps (os : list uop) | CmdRun | CmdRestart.
-
-Record script := {
-  sc_net : net;
-  sc_main : list mcmd
-}.
-
-Definition sim_state := kst task net logev.
-
-(* operations issued by main() run outside any handler: same interpreter, the
-   resulting kernel calls are applied directly *)
-Definition main_step (v : variant) (fuel pfuel : nat) (s : sim_state) (c : mcmd) : sim_state :=
-  match c with
-  | CmdOps os =>
-      let (w', cs) := do_uops v (now _ _ _ s) os (world _ _ _ s) in
-      apply_calls _ _ _ cs (set_world _ _ _ s w')
-  | CmdRun => dstep _ _ _ (sim_exec v) v fuel pfuel s DRun
-  | CmdRestart => dstep _ _ _ (sim_exec v) v fuel pfuel s DRestart
-  end.
-
-Definition run_script (v : variant) (fuel pfuel : nat) (p : script) : sim_state :=
-  fold_left (main_step v fuel pfuel) (sc_main p) (init _ _ _ (sc_net p)).
-
-Definition net0 : net :=
-  {| w_sinks := []; w_next_sink := 1000000; w_handlers := []; w_nodes := []; w_in := []; w_out := [];
-     w_route := []; w_mtu := 1475; w_mtus := []; w_hosts := []; w_tcp_reg := []; w_udp_reg := [];
-     w_next_port := 2000; w_tcps := []; w_udps := []; w_chans := []; w_next_chan := 0; w_rslv := [];
-     w_pcap := None; w_wall := []; w_rall := [] |}.
-
-(* visible trace *)
-Inductive vline := VLog (now : Z) (tag : Z) (fields : list Z) | VRet (now i n : Z) | VRun (now ret : Z) | VOutOfFuel.
-
-Definition svis_of (e : kevent task logev) : list vline :=
-  match e with
-  | ELog _ _ n (tag, fs) => [VLog n tag fs]
-  | ERet _ _ n i r => if Z.eqb (i mod 8) 0 then [VRet n (i / 8) r] else []
-  | ERun _ _ n r => [VRun n r]
-  | EFuel _ _ _ => [VOutOfFuel]
-  | _ => []
-  end.
-
-Definition svisible (s : sim_state) : list vline := rev (flat_map svis_of (trace _ _ _ s)).
-
-Definition pcap_bytes (s : sim_state) : option (list Z) :=
-  match w_pcap (world _ _ _ s) with Some l => Some (encode_file (rev l)) | None => None end.
+(* asio::async_write(socket, buffer(data), h): write_some rounds of at most [chunk] bytes *)
+Definition start_write_all (cx : ctx) (s : Z) (data : list Z) (chunk h : Z) (w : net) : net * list kc :=
+  let w := w <| w_wall := mset (w_wall w) s (mkWall data 0 chunk h) |> in
+  let (w, c0) := tcp_abort_send s w in
+  let (w, c1) := tcp_async_write_impl cx s [firstn (Z.to_nat chunk) data] (hid_wall s) w in
+  (w, c0 ++ c1).
